@@ -65,7 +65,8 @@ theorem tuEmit_covers (key : Bytes) (start : Entry Text) (lastX : Nat) (more : L
       have : j < (start.val :: m :: more).length := by simp at hj ⊢; omega
       simp [List.getElem?_eq_getElem this]
     · rename_i hnl
-      have hnl' : tuNeedsList start.val 1 (m :: more) = false := by simpa using hnl
+      have hnl' : tuNeedsList start.val 1 (m :: more) = false := by
+        have := hnl; simp at this; exact this.2
       simp only [valueAt]
       cases j with
       | zero => simp
@@ -99,7 +100,8 @@ theorem tuEmit_sound (key : Bytes) (start : Entry Text) (lastX : Nat) (more : Li
       simp only [List.getElem?_eq_getElem this, Option.some.injEq] at h6
       simp [List.getElem?_eq_getElem this, h6]
     · rename_i hnl
-      have hnl' : tuNeedsList start.val 1 (m :: more) = false := by simpa using hnl
+      have hnl' : tuNeedsList start.val 1 (m :: more) = false := by
+        have := hnl; simp at this; exact this.2
       simp only [valueAt] at h6
       generalize hj : x - start.x = j at h6 hle ⊢
       cases j with
